@@ -6,7 +6,7 @@
    thisRow[2048*3]).  All theorems quantify over EVERY token stream [ts] (valid or not) and every
    well-formed client state. *)
 From LV Require Import Dec.CliBase Dec.CliFbProofs Dec.CliDec Dec.CliDecZ Dec.CliMsg Dec.CliInit Dec.RefEnc
-     Dec.CliSound Dec.CliSafe Dec.CliSafeFix Dec.CliSafeZ Dec.CliOobWitness.
+     Dec.CliSound Dec.CliSafe Dec.CliSafeFix Dec.CliSafeZ Dec.CliOobWitness Dec.CliDesync.
 Local Open Scope Z_scope.
 
 (* ---- progress: a step that returns TRUE consumed at least one token and leaves a consistent state;
@@ -106,7 +106,7 @@ Proof.
 Qed.
 
 (* ---- THE WHOLE REPAIRED MIRROR (fix bits 0..6 and 8 = library commits dd06ff7, 0870444, 01fc326, 6de7bdd, d9a5962,
-        112b5b7, a7a3a60, 281f33a, bit 9 = a41e88e - the baseline [init_state] = HEAD has them - plus bit 10 = notes/fix_C08_11.diff, proposed): no server input makes
+        112b5b7, a7a3a60, 281f33a, bit 9 = a41e88e, bit 10 = a24a50e - the baseline [init_state] = HEAD has them all): no server input makes
         HandleRFBServerMessage's mirror leave an object - no exception list.  (Bit 7 = d211e4c only selects the
         CPIXEL width of 16-bpp clients; the statement holds with and without it.) *)
 Definition fixes_all (s : cst) : Prop :=
@@ -139,6 +139,26 @@ Proof.
   destruct K as (_ & _ & Efix). unfold fixes_all, fixed in *. now rewrite Efix.
 Qed.
 
+(* ---- when does the mirror decline to predict?  The [<> Oob] theorems above are satisfied by [Desync] too, so [Desync]
+        must not be an escape hatch.  It is not: for EVERY state and token stream, [Desync c rest] pins down a position of
+        the script ([rest] is a suffix) where the script's token is of another KIND than what the C client reads there -
+        c = 1: ReadFromRFBServer of plain bytes meets a deflate / LZO block token; 2 (3): a deflate (LZO) block is expected
+        and the next token is something else; 4: the deflate block token just consumed names another zlib stream of the
+        client or its restart flag contradicts the stream's history; 5: Tight JPEG (libjpeg is not mirrored).  Every other
+        input - in particular every stream whose tokens have the kinds the client asks for, whatever their CONTENT and
+        whatever lengths / counts / coordinates they carry - gets a definite answer Ok / Fail / More / Oob, and it is for
+        those that [<> Oob] has content.  Not expressible in the alphabet at all (hence neither Desync nor covered): the
+        length FIELDS of compressed blocks (rendered by the harness) and inflate errors beyond the [ok] flag of a block. *)
+Theorem C08_desync_characterised : forall s ts c rest,
+  handle_msg s ts = Desync c rest -> exists pre, ts = pre ++ rest /\ cause_ok c pre rest.
+Proof. exact desync_characterised. Qed.
+
+(* a stream of plain bytes only - all a server can send for the uncompressed encodings and all non-update messages -
+   is declined only where the client wants a compressed block or a JPEG image *)
+Theorem C08_desync_plain_stream : forall s ts c rest,
+  Forall (fun t => is_TB t = true) ts -> handle_msg s ts = Desync c rest -> c = 2 \/ c = 3 \/ c = 5.
+Proof. exact desync_plain_stream. Qed.
+
 Theorem C08_no_oob_rect_all : forall x y w h enc s ts c,
   0 <= x -> 0 <= y -> 0 <= w -> 0 <= h -> st_ok s -> fixes_all s -> rect_body x y w h enc s ts <> Oob c.
 Proof.
@@ -165,16 +185,16 @@ Proof.
 Qed.
 
 Example C08_no_oob_write_nonvacuous :
-  st_ok (set_fix (init_state f888 255 16 16) 2047) /\ fixes_all (set_fix (init_state f888 255 16 16) 2047).
+  st_ok (init_state f888 255 16 16) /\ fixes_all (init_state f888 255 16 16).
 Proof.
   split; [split; [apply init_state_wf; lia|unfold bypp_pos; cbn; lia]|]. repeat split; reflexivity.
 Qed.
 
-(* bit 10 (notes/fix_C08_11.diff, finding C08-F31) is NOT in the library yet: on the baseline flow the Tight gradient
-   filter writes one pixel past the framebuffer for a zero-width rectangle at the right edge *)
+(* before a24a50e (fix bit 10, finding C08-F31) the Tight gradient filter wrote one pixel past the framebuffer for a
+   zero-width rectangle at the right edge; regression witness *)
 Theorem C08_tight_gradient_w0_refuted : exists s ts c, st_ok s /\ c_fix s = 1023 /\ handle_msg s ts = Oob c.
 Proof.
-  exists (init_state f888 255 8 4), w_tightgrad_w0, 79.
+  exists (state1023 f888 255 8 4), w_tightgrad_w0, 79.
   split; [split; [apply init_state_wf; lia|unfold bypp_pos; cbn; lia]|split; [reflexivity|exact w_tightgrad_w0_oob]].
 Qed.
 
@@ -188,7 +208,7 @@ Qed.
 
 (* the baseline state of the mirror satisfies the hypotheses *)
 Example C08_no_oob_fixed_nonvacuous :
-  st_ok (set_fix (init_state f888 255 16 16) 2047) /\ fixes_0_3_9_10 (set_fix (init_state f888 255 16 16) 2047).
+  st_ok (init_state f888 255 16 16) /\ fixes_0_3_9_10 (init_state f888 255 16 16).
 Proof.
   split; [split; [apply init_state_wf; lia|unfold bypp_pos; cbn; lia]|]. repeat split; reflexivity.
 Qed.
